@@ -21,16 +21,30 @@ tests=$(PYTHONPATH="$wt" /venv/bin/python -m pytest -q -p no:cacheprovider --tim
 cd "$V"
 VERIF_REPO="$wt" ./check "$prop" --tier quick >"$wt.chk" 2>&1; rc=$?
 chk=$(grep -E "^(VIOLATION|UNDECIDED|KNOWN|CHECKER|$prop:)" "$wt.chk" | sed "s#$wt#<tree>#g" | head -12); rm -f "$wt.chk"
-python3 - "$src/meta.json" "$out/meta.json" "$prop" "$demo_clean" "$demo_changed" "$tests" "$rc" "$chk" <<'PY'
+others=""
+if [ "$rc" = "0" ]; then
+  # the named property's check did not alarm: which other claimed checks cover the functions the patch touches?
+  n=0
+  for q in $(python3 "$V/tools/touched_props.py" "$wt" "$out/patch.diff"); do
+    [ "$q" = "$prop" ] && continue
+    n=$((n+1)); [ $n -gt 6 ] && break
+    VERIF_REPO="$wt" ./check "$q" --tier quick >"$wt.chk" 2>&1; r2=$?
+    others="$others$q:$r2 "
+    [ "$r2" = "1" ] && break
+  done
+  rm -f "$wt.chk"
+fi
+python3 - "$src/meta.json" "$out/meta.json" "$prop" "$demo_clean" "$demo_changed" "$tests" "$rc" "$chk" "$others" <<'PY'
 import json, sys
-src, dst, prop, dc, dch, tests, rc, chk = sys.argv[1:9]
+src, dst, prop, dc, dch, tests, rc, chk, others = sys.argv[1:10]
 try:
     m = json.load(open(src))
 except Exception:
     m = {}
 m.update({'property': prop, 'confirmed': {'demo_exit_without_change': int(dc), 'demo_exit_with_change': int(dch),
           'test_suite_with_change': tests, 'base': 'HEAD of /repo at intake'},
-          'check': {'cmd': './check %s --tier quick (VERIF_REPO=<patched tree>)' % prop, 'exit': int(rc), 'output': chk.split('\n')}})
+          'check': {'cmd': './check %s --tier quick (VERIF_REPO=<patched tree>)' % prop, 'exit': int(rc), 'output': chk.split('\n'),
+                    'other_checks_exit': dict(x.split(':') for x in others.split())}})
 json.dump(m, open(dst, 'w'), indent=1)
-print(prop, 'demo', dc, '->', dch, '|', tests, '| check rc', rc)
+print(prop, 'demo', dc, '->', dch, '|', tests, '| check rc', rc, others)
 PY
